@@ -13,6 +13,9 @@ PROP = dict(
         # non-vacuity: each known defect, as built, must violate the property at model level
         dict(module="MCParamBind", cfg="MCParamBind_asbuilt_%s.cfg" % n, expect_violation="Property", timeout=600)
         for n, _ in _ASBUILT
+    ] + [
+        # seeded model mutant: urlencoded formData read from request.Form (query string merged) must violate too
+        dict(module="MCParamBind", cfg="MCParamBind_mutant_form.cfg", expect_violation="Property", timeout=600),
     ],
     level_text="ParamBind.tla maps a parameter declaration and the (key, text) pairs of a request to an outcome (value + dynamic type, "
                "422, panic) twice: Outcome follows untypedParamBinder.Bind / readValue / bindValue / setFieldValue / setSliceFieldValue / "
@@ -32,7 +35,9 @@ PROP = dict(
          "5 locations (path, query, header, formData urlencoded and multipart) x 16 scalar kinds x required x default x allowEmpty x "
          "{absent, every literal of the type's pool incl. +-2^(n-1)+-2 of every width rendered with math/big, signs, zeros, hex, underscore, "
          "exponent, blanks, inf/NaN, other key spellings, repeated keys}; header names declared in 4 cases; min/max/enum/length "
-         "validations; arrays of 11 item kinds x 6 collection formats x locations x flags; item validations; files. Seeded part: random "
+         "validations; arrays of 11 item kinds x 6 collection formats x locations x flags; item validations; files; the parameter's key also sent in "
+         "the opposite location (query string next to an urlencoded / multipart form body and vice versa: valid, invalid, empty, repeated; own field "
+         "present / absent / empty / invalid; scalars, multi and csv arrays), which must not influence the binding. Seeded part: random "
          "declarations with random literals. Non-trivial: the handler ran or the request was answered 422; distinct by hash.",
     exhaustive=True,
     assumptions=COMMON_ASSUME + [
